@@ -1,5 +1,6 @@
 SPECIFICATION Spec
 CONSTANTS
+  Ext = FALSE
   FixTop = TRUE
   AllowAlias = TRUE
 INVARIANTS MemoSound
